@@ -424,12 +424,24 @@ func c12EndToEnd(tunnel bool) func() {
 			send, in, closeA, closeB = a.Send, b.Inbound(), a.Close, b.Close
 		}
 		inner := sa.OnSend
+		spareCount := 0
 		sa.OnSend = func(s *fakesock.Sent) {
 			if inner != nil {
 				inner(s)
 			}
+			// every third / third+1 frame travels with one / two spare octets behind the transport unit
+			// (gateway padding; the header's total length covers them)
+			wire := append([]byte(nil), s.Bytes...)
+			if len(wire) > 6 && (wire[2] == 0x05 || wire[2] == 0x04) && wire[3] != 0x21 {
+				for k := 0; k < spareCount%3; k++ {
+					wire = append(wire, byte(0xE0+k))
+				}
+				spareCount++
+				wire[4], wire[5] = byte(len(wire)>>8), byte(len(wire))
+			}
 			var v knxnet.Service
-			if _, err := knxnet.Unpack(s.Bytes, &v); err != nil {
+			if _, err := knxnet.Unpack(wire, &v); err != nil {
+				mc.Log(Note(fmt.Sprintf("frame with %d spare octets rejected by the decoder: %v", len(wire)-len(s.Bytes), err)))
 				return
 			}
 			switch x := v.(type) {
